@@ -80,6 +80,9 @@ def run(tier, corrupt=0):
     for m in mism:
         c.mismatch("a concurrent response differs from the sequential one: %s" % json.dumps(m["bad"])[:300], m)
     c.add("evaluations", nevents)
+    # values with a history (Session.tla): whatever sequence of parse / clone / with_context / normalize / drop built a value,
+    # whatever was done to other values and to running iterators in between, it answers like the same value built afresh
+    common.session_phase(c, 1200 if tier == "quick" else 40000)
     c.add("distinct_nontrivial", len({json.dumps(s) for s in chosen}))
     c.add("traces_validated_against_impl", len(lines))
     c.setv("skeletons_available", len(skeletons))
